@@ -14,7 +14,27 @@ TRUST = (
 )
 
 # id -> (category, technique, level text, level note, design ref)
+RUNS = (
+    "Real seeded sampler runs in fresh processes (vf.driver) with passive "
+    "run-time monitors; configurations/histories come from Hypothesis "
+    "strategies (collect-then-execute), failures are bucketed by signature "
+    "and the failing configuration is the replay file. "
+)
+
 CHECKS = {
+    "C01": (
+        "exploration",
+        "property-based testing over generated configurations and "
+        "kill/resume histories; per-iteration invariant monitor + shadow "
+        "history",
+        RUNS + "Every iteration of every run is checked (live-set size and "
+        "order, removed point is the minimum and recorded/integrated once, "
+        "other live points bit-identical, new point in bounds / finite prior "
+        "/ strictly above / equal to the model, insertion index). Quick 32 "
+        "runs (~10k iterations), thorough 400 runs.",
+        "Monitors are passive; exact model arithmetic.",
+        "DESIGN.md section 4, C01",
+    ),
     "C02": (
         "exploration",
         "Hypothesis property test, differential against an mpmath reference "
@@ -26,6 +46,111 @@ CHECKS = {
         "counterexample becomes the replay file. Does not establish absence.",
         "mpmath reference; stated tolerance bound (see evidence assumptions).",
         "DESIGN.md section 4, C02",
+    ),
+    "C03": (
+        "exploration",
+        "property-based testing over generated importance-sampler "
+        "configurations and kill/resume histories; density re-evaluation "
+        "oracle",
+        RUNS + "After every iteration, after finalise and after every resume "
+        "both sample stores are checked row by row against the saved flows "
+        "(independent logit/Jacobian), the sample fractions, the log-mixture "
+        "and the model. Quick 24 runs (~4e5 rows), thorough 300 runs.",
+        "float32 tolerance on flow densities (stated in evidence).",
+        "DESIGN.md section 4, C03",
+    ),
+    "C04": (
+        "exploration",
+        "bounded exhaustive enumeration of operation sequences + Hypothesis "
+        "rule-based state machine against a list-of-records reference model",
+        "All protocol-valid operation sequences up to a bounded depth over a "
+        "3-value likelihood alphabet and small batches, for the four "
+        "strict x replace_all modes (exhaustive flag in the evidence), plus "
+        "long random sequences with large batches; reference model with "
+        "unique ids decides every clause after every call.",
+        "Reference model written from the property text; protocol "
+        "preconditions read from the only caller.",
+        "DESIGN.md section 4, C04",
+    ),
+    "C05": (
+        "exploration",
+        "property-based testing over generated configurations of both "
+        "samplers; recomputation of the estimators from returned results "
+        "(mpmath reference)",
+        RUNS + "After FlowSampler.run the evidence, uncertainty and weights "
+        "are recomputed from the returned samples alone, counts/order/"
+        "faithfulness to the model/birth likelihoods and the agreement of "
+        "result dictionary, FlowSampler and sampler are checked. Quick 32 "
+        "runs, thorough 400.",
+        "mpmath reference for the quadrature; exact model arithmetic.",
+        "DESIGN.md section 4, C05",
+    ),
+    "C07": (
+        "exploration",
+        "Hypothesis property tests: round trip, Jacobian consistency, "
+        "finite-difference Jacobian oracle, prime-prior consistency",
+        "Every registered reparameterisation name (general and "
+        "gravitational-wave), generated options/bounds/batches incl. points "
+        "1e-12*range from the bounds, before and after update(), at object "
+        "level and through FlowProposal; 2400 cases quick / 48000 thorough.",
+        "Finite-difference Jacobian with adaptive stencils; conditioning-"
+        "aware tolerances (evidence assumptions).",
+        "DESIGN.md section 4, C07",
+    ),
+    "C12": (
+        "fault_enumeration",
+        "generated kill/resume schedules against real runs; field-by-field "
+        "digest of the sampler at checkpoint vs after resume; independent "
+        "evaluation tally",
+        RUNS + "Kills are placed at generated fractions of the run inside "
+        "likelihood calls, followed by downtime and a resume in a fresh "
+        "process; the restored sampler must equal the recorded checkpoint "
+        "digest, counters/timings must continue cumulatively and the "
+        "finished run must satisfy the C01/C03/C05 invariants. Quick 24 "
+        "histories, thorough 300.",
+        "Digest exclusions listed in vf/digest.py; kills never land inside "
+        "a checkpoint write (C11 does that).",
+        "DESIGN.md section 4, C12",
+    ),
+    "C14": (
+        "exploration",
+        "property-based differential testing: digests of seeded runs across "
+        "processes and parallelisation settings",
+        RUNS + "Groups of 4 runs of one generated configuration that differ "
+        "only in pool / chunk-size / parallel-prior settings (real fork "
+        "pools), plus a repeat in the same process; nested samples, "
+        "evidence, weights and evaluation counts must be bit-identical. "
+        "Quick 8 groups, thorough 60.",
+        "Models with exactly rounded arithmetic; fork start method.",
+        "DESIGN.md section 4, C14",
+    ),
+    "C15": (
+        "exploration",
+        "property-based testing over generated stopping configurations and "
+        "run / run-again / resume-after-finish histories; per-iteration "
+        "criterion monitor with independent recomputation",
+        RUNS + "The compared value is recorded after every iteration and "
+        "recomputed independently; the stop iteration must be the first one "
+        "the rule allows; history must report the compared values; digests "
+        "before/after a second run and a resume from the final checkpoint "
+        "must be equal with no likelihood evaluation. Quick 24 histories, "
+        "thorough 300.",
+        "Readings the property leaves open are all accepted (evidence "
+        "assumptions).",
+        "DESIGN.md section 4, C15",
+    ),
+    "C17": (
+        "exploration",
+        "Hypothesis property tests on the real threshold methods and "
+        "weighted_quantile (SciPy Harrell-Davis oracle)",
+        "Generated live sets, weights and limits; the real "
+        "determine_log_likelihood_threshold / quantile / entropy methods are "
+        "called on a bare instance; clauses are asserted in the direction "
+        "ties allow. 4000 cases quick / 80000 thorough. The 'every proposal "
+        "is trained on >= min_samples' clause is decided on the real runs of "
+        "C03's generator (training-set sizes recorded by the run monitor).",
+        "scipy.stats.mstats.hdquantiles as the quantile reference.",
+        "DESIGN.md section 4, C17",
     ),
 }
 
